@@ -309,7 +309,7 @@ func genScript(r *lib.Rng, shape int) []step {
 			case 0, 1, 2, 3, 4:
 				add(0, actDeliver)
 			case 5:
-				add(0, actDupReq)
+				add(0, lib.Pick(r, actDupReq, actForge))
 			case 6:
 				add(0, actKeFail)
 			default:
@@ -345,6 +345,36 @@ func genScript(r *lib.Rng, shape int) []step {
 		}
 		add(0, actDeliver)
 		add(0, actDeliver)
+	case 8: // a client that is quiet for two rotations but less than three days: still answered
+		add(0, actDeliver)
+		add(25*hour, actDeliver)
+		add(lib.Pick(r, 24*hour, 25*hour, 30*hour), actDeliver)
+		for i := int(r.Range(2, 5)); i > 0; i-- {
+			add(0, actDeliver)
+		}
+		add(lib.Pick(r, 0, 10*hour), actDeliver)
+	case 9: // loss-free across many rotations, more than three days in all: the pool is turned over in time
+		for rot := int(r.Range(4, 6)); rot > 0; rot-- {
+			for i := int(r.Range(8, 10)); i > 0; i-- {
+				add(0, actDeliver)
+			}
+			add(lib.Pick(r, 25*hour, 30*hour, 47*hour), actDeliver)
+		}
+		for i := 0; i < 9; i++ {
+			add(0, actDeliver)
+		}
+	case 10: // forged datagrams with cleartext cookies ahead of genuine replies, at every level
+		add(0, actDeliver)
+		for i := int(r.Range(0, 6)); i > 0; i-- {
+			add(0, lossAct())
+		}
+		add(0, actForge)
+		for i := int(r.Range(2, 9)); i > 0; i-- {
+			add(0, lib.Pick(r, actDeliver, actForge, actDeliver))
+		}
+		for i := 0; i < 9; i++ {
+			add(0, actDeliver) // anything forged that got into the pool is sent by now
+		}
 	case 7: // one real timeout
 		add(0, actDeliver)
 		add(0, actTimeout)
@@ -369,8 +399,11 @@ func genHistories(r *lib.Rng, tier string) (scripts [][]step) {
 		s = append(s, step{action: actDeliver}, step{action: actDeliver}, step{action: actDeliver})
 		scripts = append(scripts, s)
 	}
+	for _, sh := range []int{8, 9, 10} {
+		scripts = append(scripts, genScript(r, sh))
+	}
 	for i := 0; i < n; i++ {
-		shape := lib.Pick(r, 0, 1, 1, 1, 2, 2, 3, 3, 3, 4, 4, 5, 6, 6)
+		shape := lib.Pick(r, 0, 1, 1, 1, 2, 2, 3, 3, 3, 4, 4, 5, 6, 6, 8, 8, 9, 10, 10)
 		if i%40 == 7 {
 			shape = 7
 		}
@@ -466,6 +499,7 @@ func (e *env) runSrv(args string) (tags, a, outs string) {
 	}
 	var o stepObs
 	o.req = req
+	e.noteCurrent()
 	if len(t) > 4 && t[4] == "1" {
 		o.replies = e.toServerSCION(req)
 		tags += ",scion"
@@ -505,7 +539,7 @@ func (e *env) runSrv(args string) (tags, a, outs string) {
 		tags += ",nt"
 	}
 	return tags, a, lib.L(lib.I(1), lib.B(req), lib.I(int64(len(o.replies))), rep, lib.B(o.repNonce), lib.B(o.repCT),
-		lib.Bool(o.repAuthOK), lib.B(o.repPlain), lib.L(o.repCookies...), lib.B(c2s), lib.B(s2c))
+		lib.Bool(o.repAuthOK), lib.B(o.repPlain), lib.L(o.repCookies...), lib.B(c2s), lib.B(s2c), lib.I(e.noteCurrent()))
 }
 
 func genSrv(r *lib.Rng, tier string) (js []job) {
